@@ -73,7 +73,13 @@ fn path_id(g: &mut G, id: Uuid) -> (String, Vec<&'static str>, &'static str) {
         6 => (format!("/{}", &id.to_string()[..35]), vec!["pathid"], "len35"),
         7 => (format!("/{id}/x"), vec!["pathid"], "extra-seg"),
         8 => (format!("/{id}/"), vec!["pathid"], "trailing-slash"),
-        9 => (format!("/{}", id.to_string().replace('a', "g").replace('0', "z")), vec!["pathid"], "nonhex"),
+        9 => {
+            // one character that is certainly not a hex digit (a replacement of particular digits would leave a
+            // server-drawn id that happens not to contain them valid - a false "defect")
+            let mut t = id.to_string().into_bytes();
+            t[0] = b'g';
+            (format!("/{}", String::from_utf8(t).unwrap()), vec!["pathid"], "nonhex")
+        }
         _ => (format!("/{id}?x=1"), vec![], "query"),
     }
 }
